@@ -795,6 +795,44 @@ def check_fixture(ctx):
         ctx.undecided('R5-fixture', ('bistat/rules/c13.py', 'FIXTURE'), 'embedded positive example', 'the embedded violating example is no longer flagged (%d writes, value %s): the rule is broken' % (len(bad), k), 0)
 
 
+def check_constructor_keywords_not_fed_from_other_packets(ctx, rule='R6-fresh-values'):
+    """Round 7.  Packet.__init__ hands its keyword dict to every field.init, which stores the value
+    found there in the new packet as it is (the caller gave it).  The constructor itself never
+    adds values to that dict that it read from another object: such a value -- a list, a nested
+    packet of an embedded packet -- would be stored by reference, shared by the two packets"""
+    repo = ctx.repo
+    pk = repo.cls('Packet')
+    init = pk.methods.get('__init__')
+    if init is None:
+        ctx.undecided(rule, (pk.file, 'Packet'), 'Packet.__init__', 'anchor not found', 0)
+        return
+    kw = init.node.args.kwarg.arg if init.node.args.kwarg is not None else None
+    if kw is None:
+        ctx.undecided(rule, init, 'Packet.__init__', 'the constructor takes no **keywords', init.node.lineno)
+        return
+    n = 0
+    for x in ast.walk(init.node):
+        val = None
+        if isinstance(x, ast.Call) and isinstance(x.func, ast.Attribute) and canon(x.func.value) == kw and x.func.attr in ('setdefault', 'update', '__setitem__'):
+            val = x.args[-1] if x.args else (x.keywords[0].value if x.keywords else None)
+        elif isinstance(x, ast.Assign) and any(isinstance(t, ast.Subscript) and canon(t.value) == kw for t in x.targets):
+            val = x.value
+        if val is None:
+            continue
+        n += 1
+        copied = isinstance(val, ast.Call) and (call_name(val) or '').split('.')[-1] in ('deepcopy', 'clone')
+        reads = [y for y in ast.walk(val) if (isinstance(y, ast.Call) and isinstance(y.func, ast.Name) and y.func.id == 'getattr') or isinstance(y, ast.Attribute)]
+        st = 'Packet.__init__: %s' % stmt_text(x)[:100]
+        if reads and not copied:
+            ctx.violation(rule, init, st, 'a value read from another object (%s) is put in the keyword dict and from there, by reference, in the new packet: the two packets share the lists and nested packets, so a change through one shows in the other and in what it packs' % canon(reads[0])[:60], x.lineno, witness=True)
+        elif copied:
+            ctx.holds(rule, init, st, 'a copy is added', x.lineno)
+        else:
+            ctx.undecided(rule, init, st, 'the constructor adds a value to its keyword dict: cannot see where it comes from', x.lineno)
+    if not n:
+        ctx.holds(rule, init, 'Packet.__init__ adds nothing to its keyword dict', 'every value a field finds there was given by the caller', init.node.lineno)
+
+
 def check(ctx):
     funcs = runtime_functions(ctx)
     check_fixture(ctx)
@@ -802,6 +840,7 @@ def check(ctx):
     check_freshness(ctx)
     check_pack_purity(ctx)
     check_lists_only_iterated(ctx, funcs)
+    check_constructor_keywords_not_fed_from_other_packets(ctx)
     # the generated module is shared by same-named classes: nothing of one class lives in it
     from .c15 import check_module_namespace
     check_module_namespace(ctx)
